@@ -122,7 +122,11 @@ pub fn is_cfg_test(attrs: &[syn::Attribute]) -> bool {
 }
 
 pub fn is_cfg_verif(attrs: &[syn::Attribute]) -> bool {
-    attrs.iter().any(|a| crate::expr::tokens_of(a).contains("flurry_verif"))
+    attrs.iter().any(|a| {
+        let t = crate::expr::tokens_of(a);
+        // `#[cfg(flurry_verif)]` items are hook code; `#[cfg_attr(flurry_verif, ..)]` only decorates real code
+        t.starts_with("#[cfg(") && t.contains("flurry_verif")
+    })
 }
 
 pub fn fns(file: &syn::File) -> Vec<FnInfo<'_>> {
